@@ -3707,7 +3707,7 @@ def plan(tier, seed):
         d.update(kw)
         units.append(d)
     # every unit draws its values from ctx.rng (seeded from VERIF_SEED and the unit index): shards are independent samples
-    rep = 4 if quick else 60
+    rep = 10 if quick else 60
     for k in ('integer', 'int', 'bits', 'oid', 'utf8', 'ascii_strings', 'time', 'seqofint', 'sm2sig', 'sm2ct', 'sm2keys', 'sm2consumers',
               'names', 'exts'):
         for i in range(rep):
